@@ -5,7 +5,7 @@
 pub mod script;
 pub mod sub;
 
-use rsactor::{Actor, ActorRef, ActorWeak, Message};
+use rsactor::{Actor, ActorControl, ActorRef, ActorWeak, AskHandler, Message, TellHandler, WeakActorControl, WeakAskHandler, WeakTellHandler};
 use script::{Action, HItem, HOut, Kind, ROut};
 use std::collections::BTreeMap;
 use std::fmt::Write as _;
@@ -47,10 +47,125 @@ pub struct ActorEnv {
     pub handled: Vec<u64>,    // handler entries
 }
 
-pub enum Slot {
-    Strong(ActorRef<SA>),
-    Weak(ActorWeak<SA>),
+/// Every type-erased strong handle kind, all obtained from one ActorRef through the various
+/// conversion paths (From<&ActorRef>, From<ActorRef>, Box::new, clone_boxed, as_control).
+pub struct EStrong {
+    pub t0: Box<dyn TellHandler<M<0>>>,
+    pub t1: Box<dyn TellHandler<M<1>>>,
+    pub t2: Box<dyn TellHandler<M<2>>>,
+    pub t3: Box<dyn TellHandler<M<3>>>,
+    pub a0: Box<dyn AskHandler<M<0>, Rep>>,
+    pub a1: Box<dyn AskHandler<M<1>, Rep>>,
+    pub a2: Box<dyn AskHandler<M<2>, Rep>>,
+    pub a3: Box<dyn AskHandler<M<3>, Rep>>,
+    pub c: Box<dyn ActorControl>,
 }
+pub struct EWeak {
+    pub t0: Box<dyn WeakTellHandler<M<0>>>,
+    pub t1: Box<dyn WeakTellHandler<M<1>>>,
+    pub t2: Box<dyn WeakTellHandler<M<2>>>,
+    pub t3: Box<dyn WeakTellHandler<M<3>>>,
+    pub a0: Box<dyn WeakAskHandler<M<0>, Rep>>,
+    pub a1: Box<dyn WeakAskHandler<M<1>, Rep>>,
+    pub a2: Box<dyn WeakAskHandler<M<2>, Rep>>,
+    pub a3: Box<dyn WeakAskHandler<M<3>, Rep>>,
+    pub c: Box<dyn WeakActorControl>,
+}
+impl EStrong {
+    pub fn from_ref(r: &ActorRef<SA>) -> Self {
+        let t0: Box<dyn TellHandler<M<0>>> = r.into();
+        let t1: Box<dyn TellHandler<M<1>>> = r.clone().into();
+        let t2: Box<dyn TellHandler<M<2>>> = Box::new(r.clone());
+        let t3: Box<dyn TellHandler<M<3>>> = TellHandler::<M<3>>::clone_boxed(r);
+        let a0: Box<dyn AskHandler<M<0>, Rep>> = r.into();
+        let a1: Box<dyn AskHandler<M<1>, Rep>> = r.clone().into();
+        let a2: Box<dyn AskHandler<M<2>, Rep>> = Box::new(r.clone());
+        let a3: Box<dyn AskHandler<M<3>, Rep>> = AskHandler::<M<3>, Rep>::clone_boxed(r);
+        let c: Box<dyn ActorControl> = t0.as_control().clone_boxed();
+        EStrong { t0, t1, t2, t3, a0, a1, a2, a3, c }
+    }
+    pub fn dup(&self) -> Self {
+        EStrong {
+            t0: self.t0.clone(), t1: self.t1.clone_boxed(), t2: self.t2.clone(), t3: self.t3.clone_boxed(),
+            a0: self.a0.clone(), a1: self.a1.clone_boxed(), a2: self.a2.clone(), a3: self.a3.clone_boxed(),
+            c: self.c.clone(),
+        }
+    }
+    pub fn downgrade(&self) -> EWeak {
+        EWeak {
+            t0: self.t0.downgrade(), t1: self.t1.downgrade(), t2: self.t2.downgrade(), t3: self.t3.downgrade(),
+            a0: self.a0.downgrade(), a1: self.a1.downgrade(), a2: self.a2.downgrade(), a3: self.a3.downgrade(),
+            c: self.c.downgrade(),
+        }
+    }
+}
+impl EWeak {
+    pub fn dup(&self) -> Self {
+        EWeak {
+            t0: self.t0.clone(), t1: self.t1.clone_boxed(), t2: self.t2.clone(), t3: self.t3.clone_boxed(),
+            a0: self.a0.clone(), a1: self.a1.clone_boxed(), a2: self.a2.clone(), a3: self.a3.clone_boxed(),
+            c: self.c.clone(),
+        }
+    }
+    /// upgrade every handle; they must agree
+    pub fn upgrade(&self, fails: &mut Vec<String>) -> Option<EStrong> {
+        let (t0, t1, t2, t3) = (self.t0.upgrade(), self.t1.upgrade(), self.t2.upgrade(), self.t3.upgrade());
+        let (a0, a1, a2, a3) = (self.a0.upgrade(), self.a1.upgrade(), self.a2.upgrade(), self.a3.upgrade());
+        let c = self.c.upgrade();
+        let via = self.t0.as_weak_control().upgrade().is_some();
+        let n = [t0.is_some(), t1.is_some(), t2.is_some(), t3.is_some(), a0.is_some(), a1.is_some(), a2.is_some(), a3.is_some(), c.is_some(), via];
+        if n.iter().any(|x| *x != n[0]) {
+            fails.push(format!("C16 weak handles of one actor disagree on upgrade: {n:?}"));
+        }
+        if self.c.is_alive() != c.is_some() {
+            fails.push(format!("C16 WeakActorControl::is_alive()={} but upgrade()={}", self.c.is_alive(), c.is_some()));
+        }
+        match (t0, t1, t2, t3, a0, a1, a2, a3, c) {
+            (Some(t0), Some(t1), Some(t2), Some(t3), Some(a0), Some(a1), Some(a2), Some(a3), Some(c)) =>
+                Some(EStrong { t0, t1, t2, t3, a0, a1, a2, a3, c }),
+            _ => None,
+        }
+    }
+}
+
+pub enum SRef {
+    Typed(ActorRef<SA>),
+    Erased(EStrong),
+}
+pub enum WRef {
+    Typed(ActorWeak<SA>),
+    Erased(EWeak),
+}
+impl SRef {
+    pub fn dup(&self) -> SRef {
+        match self { SRef::Typed(r) => SRef::Typed(r.clone()), SRef::Erased(e) => SRef::Erased(e.dup()) }
+    }
+    pub fn identity(&self) -> rsactor::Identity {
+        match self { SRef::Typed(r) => r.identity(), SRef::Erased(e) => e.c.identity() }
+    }
+    pub fn kill(&self) -> rsactor::Result<()> {
+        match self { SRef::Typed(r) => r.kill(), SRef::Erased(e) => e.c.kill() }
+    }
+    pub fn downgrade(&self) -> WRef {
+        match self { SRef::Typed(r) => WRef::Typed(ActorRef::downgrade(r)), SRef::Erased(e) => WRef::Erased(e.downgrade()) }
+    }
+}
+impl WRef {
+    pub fn dup(&self) -> WRef {
+        match self { WRef::Typed(w) => WRef::Typed(w.clone()), WRef::Erased(e) => WRef::Erased(e.dup()) }
+    }
+    pub fn upgrade(&self, fails: &mut Vec<String>) -> Option<SRef> {
+        match self { WRef::Typed(w) => w.upgrade().map(SRef::Typed), WRef::Erased(e) => e.upgrade(fails).map(SRef::Erased) }
+    }
+}
+
+pub enum Slot {
+    Strong(SRef),
+    Weak(WRef),
+}
+
+/// whether slots hold type-erased handles (script header `mode erased`)
+pub static ERASED: std::sync::atomic::AtomicBool = std::sync::atomic::AtomicBool::new(false);
 
 #[derive(Default)]
 pub struct State {
@@ -117,8 +232,45 @@ pub fn s_result<T>(r: &rsactor::Result<T>, okv: impl Fn(&T) -> u64) -> String {
     }
 }
 
+fn rep_val(o: u64) -> impl Fn(&Rep) -> u64 {
+    move |rep: &Rep| if rep.o == o { rep.v } else { 999_000 + rep.o }
+}
+
 /// Perform one tell/ask/stop on a strong reference and return the result token.
-pub async fn do_op(r: &ActorRef<SA>, o: u64, k: Kind, tmo: Option<u64>) -> String {
+pub async fn do_op(h: &SRef, o: u64, k: Kind, tmo: Option<u64>) -> String {
+    match h {
+        SRef::Typed(r) => do_op_typed(r, o, k, tmo).await,
+        SRef::Erased(e) => do_op_erased(e, o, k, tmo).await,
+    }
+}
+
+pub async fn do_op_erased(e: &EStrong, o: u64, k: Kind, tmo: Option<u64>) -> String {
+    let d = |t: u64| TICK * t as u32;
+    match (k, tmo, o % 4) {
+        (Kind::Tell, None, 0) => s_result(&e.t0.tell(M::<0> { o }).await, |_| 0),
+        (Kind::Tell, None, 1) => s_result(&e.t1.tell(M::<1> { o }).await, |_| 0),
+        (Kind::Tell, None, 2) => s_result(&e.t2.tell(M::<2> { o }).await, |_| 0),
+        (Kind::Tell, None, _) => s_result(&e.t3.tell(M::<3> { o }).await, |_| 0),
+        (Kind::Tell, Some(t), 0) => s_result(&e.t0.tell_with_timeout(M::<0> { o }, d(t)).await, |_| 0),
+        (Kind::Tell, Some(t), 1) => s_result(&e.t1.tell_with_timeout(M::<1> { o }, d(t)).await, |_| 0),
+        (Kind::Tell, Some(t), 2) => s_result(&e.t2.tell_with_timeout(M::<2> { o }, d(t)).await, |_| 0),
+        (Kind::Tell, Some(t), _) => s_result(&e.t3.tell_with_timeout(M::<3> { o }, d(t)).await, |_| 0),
+        (Kind::Ask, None, 0) => s_result(&e.a0.ask(M::<0> { o }).await, rep_val(o)),
+        (Kind::Ask, None, 1) => s_result(&e.a1.ask(M::<1> { o }).await, rep_val(o)),
+        (Kind::Ask, None, 2) => s_result(&e.a2.ask(M::<2> { o }).await, rep_val(o)),
+        (Kind::Ask, None, _) => s_result(&e.a3.ask(M::<3> { o }).await, rep_val(o)),
+        (Kind::Ask, Some(t), 0) => s_result(&e.a0.ask_with_timeout(M::<0> { o }, d(t)).await, rep_val(o)),
+        (Kind::Ask, Some(t), 1) => s_result(&e.a1.ask_with_timeout(M::<1> { o }, d(t)).await, rep_val(o)),
+        (Kind::Ask, Some(t), 2) => s_result(&e.a2.ask_with_timeout(M::<2> { o }, d(t)).await, rep_val(o)),
+        (Kind::Ask, Some(t), _) => s_result(&e.a3.ask_with_timeout(M::<3> { o }, d(t)).await, rep_val(o)),
+        (Kind::Stop, _, m) => {
+            // alternate between the control object and the control view of a handler
+            if m % 2 == 0 { s_result(&e.c.stop().await, |_| 0) } else { s_result(&e.a1.as_control().stop().await, |_| 0) }
+        }
+    }
+}
+
+pub async fn do_op_typed(r: &ActorRef<SA>, o: u64, k: Kind, tmo: Option<u64>) -> String {
     macro_rules! by_type {
         ($m:ident) => {
             match o % 4 {
@@ -139,20 +291,20 @@ pub async fn do_op(r: &ActorRef<SA>, o: u64, k: Kind, tmo: Option<u64>) -> Strin
             by_type!(go)
         }
         (Kind::Ask, None) => {
-            macro_rules! go { ($k:literal) => { s_result(&r.ask(M::<$k> { o }).await, |rep: &Rep| if rep.o == o { rep.v } else { 999_000 + rep.o }) }; }
+            macro_rules! go { ($k:literal) => { s_result(&r.ask(M::<$k> { o }).await, rep_val(o)) }; }
             by_type!(go)
         }
         (Kind::Ask, Some(t)) => {
-            macro_rules! go { ($k:literal) => { s_result(&r.ask_with_timeout(M::<$k> { o }, TICK * t as u32).await, |rep: &Rep| if rep.o == o { rep.v } else { 999_000 + rep.o }) }; }
+            macro_rules! go { ($k:literal) => { s_result(&r.ask_with_timeout(M::<$k> { o }, TICK * t as u32).await, rep_val(o)) }; }
             by_type!(go)
         }
         (Kind::Stop, _) => s_result(&r.stop().await, |_| 0),
     }
 }
 
-fn strong_slot(sh: &Shared, sl: usize) -> Option<ActorRef<SA>> {
+fn strong_slot(sh: &Shared, sl: usize) -> Option<SRef> {
     match sh.st.lock().unwrap().slots.get(&sl) {
-        Some(Slot::Strong(r)) => Some(r.clone()),
+        Some(Slot::Strong(r)) => Some(r.dup()),
         _ => None,
     }
 }
@@ -236,7 +388,7 @@ async fn run_hook(idx: usize, sh: &Arc<Shared>) -> HOut {
     }
 }
 
-pub fn target_of(sh: &Shared, r: &ActorRef<SA>) -> Option<usize> {
+pub fn target_of(sh: &Shared, r: &SRef) -> Option<usize> {
     let id = r.identity().id;
     IDS.lock().unwrap().iter().position(|x| *x == id).filter(|i| *i < sh.notify.len())
 }
@@ -432,7 +584,17 @@ impl Director {
                     self.probes.push(ActorRef::downgrade(&r));
                     self.joins.push(j);
                     self.join_res.push(None);
-                    self.sh.st.lock().unwrap().slots.insert(idx, Slot::Strong(r));
+                    let h = if ERASED.load(std::sync::atomic::Ordering::Relaxed) {
+                        let e = EStrong::from_ref(&r);
+                        if e.c.identity() != r.identity() || e.t0.as_control().identity() != r.identity() {
+                            self.sh.st.lock().unwrap().monitor_failures.push("C16 erased handle reports another identity".into());
+                        }
+                        drop(r);
+                        SRef::Erased(e)
+                    } else {
+                        SRef::Typed(r)
+                    };
+                    self.sh.st.lock().unwrap().slots.insert(idx, Slot::Strong(h));
                 }
             }
             Action::Op { o, k, slot, tmo } => {
@@ -471,8 +633,8 @@ impl Director {
                 let mut st = self.sh.st.lock().unwrap();
                 if !st.slots.contains_key(dst) {
                     let v = match st.slots.get(src) {
-                        Some(Slot::Strong(r)) => Some(Slot::Strong(r.clone())),
-                        Some(Slot::Weak(w)) => Some(Slot::Weak(w.clone())),
+                        Some(Slot::Strong(r)) => Some(Slot::Strong(r.dup())),
+                        Some(Slot::Weak(w)) => Some(Slot::Weak(w.dup())),
                         None => None,
                     };
                     if let Some(v) = v {
@@ -488,7 +650,7 @@ impl Director {
                 let mut st = self.sh.st.lock().unwrap();
                 if !st.slots.contains_key(dst) {
                     let v = match st.slots.get(src) {
-                        Some(Slot::Strong(r)) => Some(Slot::Weak(ActorRef::downgrade(r))),
+                        Some(Slot::Strong(r)) => Some(Slot::Weak(r.downgrade())),
                         _ => None,
                     };
                     if let Some(v) = v {
@@ -499,10 +661,12 @@ impl Director {
             Action::Upgrade { src, dst } => {
                 let mut st = self.sh.st.lock().unwrap();
                 if !st.slots.contains_key(dst) {
+                    let mut fails = vec![];
                     let v = match st.slots.get(src) {
-                        Some(Slot::Weak(w)) => w.upgrade().map(Slot::Strong),
+                        Some(Slot::Weak(w)) => w.upgrade(&mut fails).map(Slot::Strong),
                         _ => None,
                     };
+                    st.monitor_failures.extend(fails);
                     if let Some(v) = v {
                         st.slots.insert(*dst, v);
                     }
@@ -640,7 +804,7 @@ impl Director {
             let mc = match &up {
                 Some(r) => r.message_count().to_string(),
                 None => match self.sh.st.lock().unwrap().slots.values().find_map(|s| match s {
-                    Slot::Strong(r) if r.identity() == self.probes[a].identity() => Some(r.message_count()),
+                    Slot::Strong(SRef::Typed(r)) if r.identity() == self.probes[a].identity() => Some(r.message_count()),
                     _ => None,
                 }) {
                     Some(c) => c.to_string(),
